@@ -266,6 +266,7 @@ class Kernel:
 
     def create_sa(self, src_selector, dst_selector, src_port, dst_port, spi, ip_proto, ipsec_proto, mode, src, dst,
                   enc_algorithm, sk_e, auth_algorithm, sk_a, lifetime=-1):
+        self._check_spi(spi)
         rec = dict(op='NEWSA', src_selector=src_selector, dst_selector=dst_selector, src_port=src_port, dst_port=dst_port,
                    spi=spi, ip_proto=ip_proto, ipsec_proto=ipsec_proto, mode=mode, src=src, dst=dst,
                    enc_algorithm=enc_algorithm, sk_e=sk_e, auth_algorithm=auth_algorithm, sk_a=sk_a, lifetime=lifetime)
@@ -273,7 +274,14 @@ class Kernel:
         self._maybe_fail('NEWSA')
         self.sad[self.key(dst, ipsec_proto, spi)] = rec
 
+    @staticmethod
+    def _check_spi(spi):
+        # what the real request builders do (xfrm_id.spi is a 4-byte array): any other size is a TypeError of ctypes, before anything is sent
+        if len(spi) != 4:
+            raise TypeError(f'incompatible types, c_ubyte_Array_{len(spi)} instance instead of c_ubyte_Array_4 instance')
+
     def delete_sa(self, daddr, proto, spi):
+        self._check_spi(spi)
         self.log.append(dict(op='DELSA', daddr=daddr, proto=proto, spi=spi))
         k = self.key(daddr, proto, spi)
         try:
